@@ -231,7 +231,7 @@ pub fn run(ctx: &mut RunCtx) {
     ctx.assume("progress oracle: a workload violates the property when no thread completes an operation for 20 s (quick) although unfinished threads exist; operations normally take micro- to milliseconds, so this is far from scheduling noise");
     ctx.assume("this is exploration of the schedules the OS happens to produce, not of all interleavings; errors returned by operations are ignored (other properties judge them)");
     let stall = Duration::from_secs(ctx.tier.pick(20, 60));
-    let n = ctx.tier.pick(160, 24_000);
+    let n = ctx.tier.pick(1600, 24_000);
     ctx.shrink_iters = 6;
     ctx.explore(
         "workloads",
